@@ -26,6 +26,10 @@ def FactorsNonzero (K : Type) [Field K] [CharZero K] [Kernel K] : Prop :=
 def BaseFactorsOne (K : Type) [Field K] [CharZero K] [Kernel K] : Prop :=
   ∀ u : Unit, u.kind ≠ .temperature → (perBase (baseUnit u) : K) = 1
 
+/-- the diagnostic every refused binary combination yields: kind and the operator's position -/
+abbrev unsupportedBin (op : Tok K) : Res (Value K) :=
+  .diag ⟨.unsupportedBinaryOperator, op.line, op.col, []⟩
+
 theorem baseUnit_kind (u : Unit) : (baseUnit u).kind = u.kind := by cases u <;> rfl
 
 theorem baseUnit_baseUnit (u : Unit) : baseUnit (baseUnit u) = baseUnit u := by cases u <;> rfl
